@@ -220,8 +220,10 @@ CHECKS = {
             "(C11_validated_compiles; C11_validated_from_regex_ok: from_regex then returns an NFA unless a literal is a lone brace / outside the given alphabet), what it refuses from_regex refuses with the same regex error type (C11_invalid_is_regex_error), "
             "what compiles validates (C11_compiles_validates); isequal/issubset/issuperset over a common alphabet answer exactly "
             "equality/inclusion of the denotations whenever they answer (C11_*_exact, resting on the verified comparator nfa_diff) and "
-            "fail only as one of the two from_regex calls fails. Partial: 'validated iff in the grammar' is proved in one direction "
-            "(C11_grammar_validates_partial; full statement kept as C11_validate_iff_grammar_statement); NFA.union inside "
+            "fail only as one of the two from_regex calls fails; a non-empty token list passes validate_tokens iff it is derivable in the "
+            "inductive regex grammar (precedence levels, redundant parentheses anywhere; C11_validate_iff_grammar, both directions, and "
+            "C11_validate_chars_iff_grammar for strings), and a derivation of an AST is parsed to that AST (C11_grammar_is_the_parsers). "
+            "Partial: NFA.union inside "
             "issubset/issuperset is modelled by the builder's union (NFA.union itself belongs to C08); the comparator can answer "
             "'out of fuel' on very large operands (reported, never silently accepted).",
             "Defect demonstrated on the unrepaired tree: a blank-only regex passes validate but from_regex raises IndexError.", "7/C11"),
